@@ -910,6 +910,128 @@ func c05bWriter(c *Ctx, r *Report) {
 		"action rows keep dense columns [0, NT+1); goto row i (i from 0) is dense column NT+1+i — the reader's default index a−NT−1 inverts it",
 		fmt.Sprintf("writer column layout is not (action part = columns [0,NT+1), goto row i = column NT+1+i): action width ok=%v, goto column ok=%v (index %s)", actionWidthOK, gotoColOK, gotoIdx))
 
+	// coverage of the split: every state gets an action row; every nonterminal column but the start symbol's gets a goto
+	// row; a goto row has one cell per state and every cell is copied
+	{
+		cf := newCoverFn(f)
+		ps := paramObjs(info, f.Decl)
+		why := ""
+		if len(ps) != 1 {
+			why = "expected one parameter (the dense table)"
+		}
+		isTab := func(e ast.Expr) bool { return len(ps) == 1 && identObj(info, cf.resolve(e)) == ps[0] }
+		// (1) action rows
+		if why == "" {
+			why = "no loop over all rows of the dense table that appends an action row"
+			for _, s := range f.Decl.Body.List {
+				full, body, _ := fullRangeLoop(info, s)
+				if full == nil || !isTab(full) || !noSkips(body) {
+					continue
+				}
+				for _, bs := range body.List {
+					if as, ok := bs.(*ast.AssignStmt); ok && len(as.Lhs) == 1 && len(as.Rhs) == 1 {
+						if call, ok := as.Rhs[0].(*ast.CallExpr); ok && builtinName(info, call) == "append" && len(call.Args) == 2 && exprString(call.Args[0]) == exprString(as.Lhs[0]) {
+							why = ""
+						}
+					}
+				}
+			}
+		}
+		// (2)–(4) goto rows
+		if why == "" {
+			why = "no loop `for i := 0; i < <number of nonterminals without the start symbol>; i++` building the goto rows"
+			for _, s := range f.Decl.Body.List {
+				fs, ok := s.(*ast.ForStmt)
+				if !ok || iObj == nil {
+					continue
+				}
+				init, ok := fs.Init.(*ast.AssignStmt)
+				if !ok || len(init.Lhs) != 1 || identObj(info, init.Lhs[0]) != iObj {
+					continue
+				}
+				// bound: len(VnSet) - 1
+				boundOK := false
+				if be, ok := fs.Cond.(*ast.BinaryExpr); ok && be.Op == token.LSS && identObj(info, be.X) == iObj {
+					if sub, ok := cf.resolve(be.Y).(*ast.BinaryExpr); ok && sub.Op == token.SUB {
+						if call, ok := unparen(sub.X).(*ast.CallExpr); ok && builtinName(info, call) == "len" && len(call.Args) == 1 && fieldNamed(info, call.Args[0], "VnSet") {
+							if v, isC := constInt(info, sub.Y); isC && v == 1 {
+								boundOK = true
+							}
+						}
+					}
+				}
+				post, okp := fs.Post.(*ast.IncDecStmt)
+				if !boundOK || !okp || post.Tok != token.INC || identObj(info, post.X) != iObj {
+					why = "the goto-row loop does not run i over 0 … len(VnSet)−2 in steps of one"
+					continue
+				}
+				if !noSkips(fs.Body) {
+					why = "the goto-row loop can skip a nonterminal"
+					continue
+				}
+				// row := make([]int, len(tab)); inner full loop over row (or tab) storing row[j] = tab[j][…]; append
+				var rowObj types.Object
+				appended, copied := false, false
+				for _, bs := range fs.Body.List {
+					switch x := bs.(type) {
+					case *ast.AssignStmt:
+						if len(x.Lhs) == 1 && len(x.Rhs) == 1 {
+							if call, ok := x.Rhs[0].(*ast.CallExpr); ok {
+								switch builtinName(info, call) {
+								case "make":
+									if len(call.Args) >= 2 {
+										if lc, ok := unparen(call.Args[1]).(*ast.CallExpr); ok && builtinName(info, lc) == "len" && len(lc.Args) == 1 && isTab(lc.Args[0]) {
+											rowObj = identObj(info, x.Lhs[0])
+										}
+									}
+								case "append":
+									if len(call.Args) == 2 && exprString(call.Args[0]) == exprString(x.Lhs[0]) && rowObj != nil && identObj(info, call.Args[1]) == rowObj {
+										appended = true
+									}
+								}
+							}
+						}
+					case *ast.ForStmt, *ast.RangeStmt:
+						full, body, jv := fullRangeLoop(info, bs)
+						if full == nil || rowObj == nil || !(identObj(info, full) == rowObj || isTab(full)) || !noSkips(body) {
+							continue
+						}
+						for _, is := range body.List {
+							as, ok := is.(*ast.AssignStmt)
+							if !ok || len(as.Lhs) != 1 || len(as.Rhs) != 1 || as.Tok != token.ASSIGN {
+								continue
+							}
+							l, ok1 := unparen(as.Lhs[0]).(*ast.IndexExpr)
+							rr, ok2 := unparen(as.Rhs[0]).(*ast.IndexExpr)
+							if !ok1 || !ok2 || identObj(info, l.X) != rowObj || identObj(info, l.Index) != jv {
+								continue
+							}
+							if in, ok := unparen(rr.X).(*ast.IndexExpr); ok && isTab(in.X) && identObj(info, in.Index) == jv {
+								copied = true
+							}
+						}
+					}
+				}
+				switch {
+				case rowObj == nil:
+					why = "a goto row is not allocated with one cell per state (make([]int, len(table)))"
+				case !copied:
+					why = "not every cell of a goto row is copied from the dense table (the loop over the states is not `0 … len(row)−1` or can skip a state)"
+				case !appended:
+					why = "the goto row is not appended unconditionally"
+				default:
+					why = ""
+				}
+				if why == "" {
+					break
+				}
+			}
+		}
+		r.Check(why == "", clause, "R2 COVERAGE", f.Name+"/split-covers-every-state-and-column", c.pos(f.Decl.Pos()),
+			"every state gets an action row; every nonterminal but the start symbol gets a goto row with one cell per state, each copied from the dense table",
+			"the split loses cells of the dense table: "+why)
+	}
+
 	// TrySplitTable appends goto row i to every action row in order i = 0,1,…: position NT+1+i
 	ginfo := g.Pkg.TypesInfo
 	appendOK := false
